@@ -66,6 +66,27 @@ def regen_inherit_prio(ctx):
 
 GENERATORS = GENERATORS + [regen_inherit_prio]
 
+
+# --- tie of kind (1) (task W28): Gen/GetComparam.lean is regenerated from HierarchyElement.get_comparam of the current source by the
+# Python->Lean translator and proved equal to the hand-written getComparamIn (Proofs/GetComparamGenEq.lean)
+LEAN_TARGETS = LEAN_TARGETS + ["OdxVerif.Props.C15GenLookup"]
+THEOREMS = THEOREMS + ["OdxVerif.Comparam." + t for t in ["gen_getComparam_eq", "C15_gen_get_comparam", "C15_gen_protocol_object",
+                                                          "C15_gen_protocol_first", "C15_gen_protocol_first_specific"]]
+TRUSTED = TRUSTED + ["translator harness/extract/py2lean.py + primitives lean/OdxVerif/Model/PyRt.lean for HierarchyElement.get_comparam (self.comparam_refs = "
+                     "the list `refs`, instantiated with the model's `available L`; the argument `protocol: Optional[Union[str, Protocol]]` = Option ProtoArg "
+                     "(a name or a Protocol object of which only short_name is read; isinstance(protocol, Protocol) splits it, the else branch reads it as "
+                     "Optional[str]); cp.short_name / cp.protocol_snref = Inst.name / Inst.proto; warnings.warn has no effect on the result; the "
+                     "function-local import of Protocol succeeds)"]
+
+
+def regen_get_comparam(ctx):
+    """Gen/GetComparam.lean from the current source; Unsupported (source left the translator's subset) = broken obligation"""
+    from extract import py2lean
+    py2lean.regenerate_get_comparam(common.REPO, common.VERIF)
+
+
+GENERATORS = GENERATORS + [regen_get_comparam]
+
 # ----------------------------------------------------------------------------- generators
 
 INTS = ["0", "1", "8", "123", "2016", "500000", "4294967295", " 42 ", "+7", "-3", "1_000", "007", "\t9\n", "0x10", "12a", "1.5",
